@@ -1258,6 +1258,9 @@ pub struct SCfg {
     pub max_branches: usize,
     pub preemption_bound: Option<usize>,
     pub keep_paths: bool,
+    pub checkpoint_file: Option<String>,
+    pub checkpoint_interval: Option<usize>,
+    pub max_permutations: Option<usize>,
 }
 
 pub struct SRun {
@@ -1271,6 +1274,8 @@ pub struct SRun {
     pub last_log: SLog,
     pub paths: Vec<Vec<loom::verif::Branch>>,
     pub hook_calls: usize,
+    /// digest of (log, results) of every completed iteration, in order
+    pub seq: Vec<u64>,
 }
 
 impl SRun {
@@ -1288,8 +1293,9 @@ pub fn run_loom(p: &SProg, cfg: &SCfg) -> SRun {
         replay_errors: Vec<String>,
         hook_calls: usize,
         paths: Vec<Vec<loom::verif::Branch>>,
+        seq: Vec<u64>,
     }
-    let acc = Arc::new(SM::new(Acc { outcomes: BTreeSet::new(), orders: HashSet::new(), events: 0, replay_errors: vec![], hook_calls: 0, paths: vec![] }));
+    let acc = Arc::new(SM::new(Acc { outcomes: BTreeSet::new(), orders: HashSet::new(), events: 0, replay_errors: vec![], hook_calls: 0, paths: vec![], seq: vec![] }));
     let it: Arc<SM<IterState>> = Arc::new(SM::new(IterState::default()));
     let iters = Arc::new(std::sync::atomic::AtomicUsize::new(0));
     let p2 = Arc::new(p.clone());
@@ -1310,6 +1316,9 @@ pub fn run_loom(p: &SProg, cfg: &SCfg) -> SRun {
                 }
             }
             a.orders.insert(fnv(&format!("{:?}", s.log.iter().map(|e| (e.0, e.1)).collect::<Vec<_>>())));
+            if keep {
+                a.seq.push(fnv(&format!("{:?}{:?}", s.log, s.res)));
+            }
             a.outcomes.insert(Term::Done(s.res, s.counters));
         })));
     }
@@ -1321,6 +1330,13 @@ pub fn run_loom(p: &SProg, cfg: &SCfg) -> SRun {
             b.max_branches = cfg.max_branches;
         }
         b.preemption_bound = cfg.preemption_bound;
+        if let Some(f) = &cfg.checkpoint_file {
+            b.checkpoint_file = Some(f.into());
+        }
+        if let Some(i) = cfg.checkpoint_interval {
+            b.checkpoint_interval = i;
+        }
+        b.max_permutations = cfg.max_permutations;
         b.check(move || {
             let n = p2.threads.len();
             if i2.fetch_add(1, std::sync::atomic::Ordering::Relaxed) >= cfg2.iter_cap {
@@ -1411,6 +1427,7 @@ pub fn run_loom(p: &SProg, cfg: &SCfg) -> SRun {
         last_log: last.log,
         paths: std::mem::take(&mut a.paths),
         hook_calls: a.hook_calls,
+        seq: std::mem::take(&mut a.seq),
     }
 }
 
